@@ -345,6 +345,7 @@ package raft
 //@   ensures [lease-fresh] r.operationManager.leaderLease.expiration <= now && now >= old(now)
 //@   ensures [snapshot-reset] r.snapshot == nil
 //@   ensures [answered-mono] forall c int :: old(answered[c]) ==> answered[c]
+//@   ensures [config-future-failed] r.configurationResponseCh == nil && (old(r.configurationResponseCh) != nil ==> answered[old(r.configurationResponseCh)])
 
 //@ func Raft.becomeCandidate
 //@   flags inline lockheld
@@ -521,6 +522,7 @@ package raft
 //@ func Raft.applyLoop
 //@   release s2 [order] operation.LogIndex == r.lastApplied + 1 && operation.LogIndex <= r.commitIndex && operation.LogTerm == Lterm[operation.LogIndex] && operation.Bytes == Ldata[operation.LogIndex] && Ltyp[operation.LogIndex] == OperationEntry && operation.OperationType == Replicated
 //@   at before-assign r.lastApplied assert [advance] newval == r.lastApplied + 1 && newval <= r.commitIndex
+//@   at call respond(r.configurationResponseCh, assert [config-answer] err == nil && response == *r.configuration
 //@   at call respond(responseCh, assert [answer] response.Operation.LogIndex == operation.LogIndex && response.Operation.LogTerm == operation.LogTerm && response.Operation.Bytes == operation.Bytes && err == nil
 
 //@ func Raft.applyConfiguration
@@ -561,16 +563,19 @@ package raft
 //@   ensures [log-frame] forall i int :: i <= old(Llast) ==> Lterm[i] == old(Lterm[i]) && Ltyp[i] == old(Ltyp[i]) && Ldata[i] == old(Ldata[i])
 
 //@ func Raft.submitReadOnlyOperation
+//@   requires readOnlyType == LinearizableReadOnly || readOnlyType == LeaseBasedReadOnly
 //@   ensures [not-leader] old(r.state) != Leader ==> answered[operationFuture.responseCh] && Llast == old(Llast)
 //@   at before-assign r.operationManager.pendingReadOnly[operation] assert [readIndex] r.state == Leader && operation != nil && operation.readIndex == r.commitIndex && !operation.quorumVerified && operation.OperationType == readOnlyType && newval == operationFuture.responseCh
 
 //@ func Raft.AddServer
 //@   at call r.appendConfiguration assert [guard] r.state == Leader && committedThisTermSpec(r) && !pendingSpec(r)
 //@   at call r.appendConfiguration assert [delta] (forall k string :: (k in configuration.Members) == (k in r.configuration.Members || k == id)) && (forall k string :: k != id && k in r.configuration.Members ==> configuration.Members[k] == r.configuration.Members[k] && configuration.IsVoter[k] == r.configuration.IsVoter[k]) && configuration.Members[id] == address && configuration.IsVoter[id] == isVoter
+//@   ensures [future-tabled] Llast > old(Llast) ==> r.configurationResponseCh == configurationFuture.responseCh && configurationFuture.responseCh != nil
 //@   ensures [pending-after] Llast > old(Llast) && old(r.committedConfiguration == nil || r.committedConfiguration.Index <= Llast) ==> pendingSpec(r) && r.configuration.Index == Llast
 //@   ensures [answered-or-pending] Llast == old(Llast) ==> answered[configurationFuture.responseCh]
 
 //@ func Raft.RemoveServer
+//@   ensures [future-tabled] Llast > old(Llast) ==> r.configurationResponseCh == configurationFuture.responseCh && configurationFuture.responseCh != nil
 //@   ensures [pending-after] Llast > old(Llast) && old(r.committedConfiguration == nil || r.committedConfiguration.Index <= Llast) ==> pendingSpec(r)
 //@   at call r.appendConfiguration assert [guard] r.state == Leader && committedThisTermSpec(r) && !pendingSpec(r)
 //@   at call r.appendConfiguration assert [delta] (forall k string :: (k in configuration.Members) == (k in r.configuration.Members && k != id)) && (forall k string :: k != id && k in r.configuration.Members ==> configuration.Members[k] == r.configuration.Members[k] && configuration.IsVoter[k] == r.configuration.IsVoter[k])
@@ -858,3 +863,22 @@ package raft
 
 //@ func snapshotFile.Discard
 //@   ensures [keeps-published] old(s.file) == nil ==> err == nil
+
+// ===========================================================================================
+// C18: totality of the public API (no panic / abort; futures answered or tabled)
+// ===========================================================================================
+
+//@ func State.String
+//@   requires s <= Shutdown
+//@ func OperationType.String
+//@   requires o <= LeaseBasedReadOnly
+//@ extern rand.Int63n(n) (result)
+//@   requires [positive] n > 0
+//@   ensures 0 <= result && result < n
+//@ func random.RandomTimeout
+//@ func Raft.SubmitOperation
+//@ func Raft.Status
+//@ func Raft.Configuration
+//@ func Raft.Stop
+//@ func Raft.cancelConfigurationChange
+//@   flags inline lockheld
